@@ -675,8 +675,7 @@ class _SetOperation(Selectable, Term):  # type:ignore[misc]
         if self._orderbys:
             querystring += self._orderby_sql(tail_ctx)
 
-        querystring += self._limit_sql(tail_ctx)
-        querystring += self._offset_sql(tail_ctx)
+        querystring += self._pagination_sql(tail_ctx)
 
         if ctx.subquery:
             querystring = "({query})".format(query=querystring)
@@ -685,6 +684,18 @@ class _SetOperation(Selectable, Term):  # type:ignore[misc]
             return format_alias_sql(querystring, self.alias, ctx)
 
         return querystring
+
+    def _pagination_sql(self, ctx: SqlContext) -> str:
+        """
+        The row-limiting clause of the set operation, written the way the base query's dialect writes it
+        (LIMIT/OFFSET, OFFSET .. ROWS FETCH NEXT .. ROWS ONLY, the "no limit" filler in front of a bare OFFSET).
+        """
+        if self._limit is None and self._offset is None:
+            return ""
+        paginator = copy(self.base_query)
+        paginator._limit, paginator._offset = self._limit, self._offset
+        paginator._orderbys = list(self._orderbys)  # type:ignore[arg-type]
+        return paginator._apply_pagination("", ctx)
 
     def _orderby_sql(self, ctx: SqlContext) -> str:
         """
